@@ -17,8 +17,8 @@ use serde_json::json;
 
 pub const HEADER: &str = "From CC Require Import Base.Prelude Base.Scalar Base.Ty Base.Shape Graph.Value Graph.IR Graph.Eval Model.Opt.";
 
-pub const OPT_OPS: [&str; 40] = [
-    "add", "sub", "mul", "mixed", "sum", "get", "getslice", "reshape", "nop", "stack", "concat",
+pub const OPT_OPS: [&str; 43] = [
+    "add", "sub", "mul", "mixed", "dot", "dot", "matmul", "sum", "get", "getslice", "reshape", "nop", "stack", "concat",
     "constant", "constant", "constant", "zeros", "ones", "a2b", "a2b", "b2a", "b2a", "tuple", "tuple", "named", "vector", "vector",
     "tupleget", "tupleget", "namedget", "namedget", "vectorget", "vectorget", "vectorget", "zip", "zip", "a2v", "a2v", "v2a",
     "dup", "dup", "annot",
